@@ -72,6 +72,47 @@ func (m *Model) RunLayout(s *Sink, rule string) {
 			"reserve.Insert = inserts[reserve.Name.Value] on the hit edge of that lookup",
 			"reserves are not linked to the insert looked up under the reserve's own name (e.g. by position): a page's content would appear in the wrong place")
 	}
+	// every insert is checked: "no undefined insert" (nil) is returned only after the range over the inserts is exhausted
+	if cui != nil {
+		okAll, n := true, 0
+		for _, b := range cui.Blocks {
+			ret, isRet := b.Instrs[len(b.Instrs)-1].(*ssa.Return)
+			if !isRet || !isNilConst(ret.Results[0]) {
+				continue
+			}
+			n++
+			exhausted := allPathsEstablish(b, func(f Fact) bool {
+				bo, ok := f.Cond.(*ssa.BinOp)
+				if !ok || f.Holds || bo.Op != token.LSS {
+					return false
+				}
+				// rangeindex+1 < len(keys)
+				if add, ok := bo.X.(*ssa.BinOp); ok && add.Op == token.ADD {
+					if phi, ok := add.X.(*ssa.Phi); ok && phi.Comment == "rangeindex" {
+						return true
+					}
+				}
+				return false
+			}, 0)
+			// a map range: exhaustion is the false edge of the iterator's ok
+			if !exhausted {
+				exhausted = allPathsEstablish(b, func(f Fact) bool {
+					ex, ok := f.Cond.(*ssa.Extract)
+					if !ok || f.Holds || ex.Index != 0 {
+						return false
+					}
+					_, isNext := ex.Tuple.(*ssa.Next)
+					return isNext
+				}, 0)
+			}
+			if !exhausted {
+				okAll = false
+			}
+		}
+		check(fnKey(cui)+"|every insert is checked against the reserves", m.Pos(cui.Pos()), okAll && n > 0,
+			"nil is returned only on the exhaustion edge of the range over the inserts",
+			"checkUndefinedInsert can return \"no undefined insert\" before all inserts were examined (e.g. break instead of continue): an insert that names no reserve is silently dropped when another insert is valid")
+	}
 	// duplicate inserts are rejected before registration
 	pis := m.Method("parser", "Parser", "parseInsertStmt")
 	cdi := m.Method("parser", "Parser", "checkDuplicateInserts")
